@@ -452,3 +452,11 @@ def child_receiver(recv, owner):
         if isinstance(k, tuple) and k and k[0] == "elem" and canon(k[1]) == canon(("fld", owner, "_strat_children", 0)):
             return "strats"
     return None
+
+
+def selects_strategies(a, p):
+    """the literal (a, p) picks the strategy nodes among tree nodes: isinstance(x, StrategyBase), or - a tree node being a strategy or a security - not isinstance(x, SecurityBase)
+    (which is also what `not x._issec` normalises to)"""
+    if not (isinstance(a, tuple) and len(a) == 4 and a[0] == "call" and a[1] == "isinstance" and len(a[2]) == 2):
+        return False
+    return (bool(p) and a[2][1] == ("class", "StrategyBase")) or ((not p) and a[2][1] == ("class", "SecurityBase"))
